@@ -1,4 +1,5 @@
 import FastraceModel.Model.Api
+import FastraceModel.Model.Disabled
 import FastraceModel.Driver.Util
 import FastraceModel.Driver.Report
 /- line protocol for API programs: `<thread> <op> args…`, `case <id>` resets the state -/
@@ -105,5 +106,15 @@ def seqStep (st : SeqState) (line : String) : SeqState × String :=
       (⟨sys, nt⟩, showObs nt obs)
     | _, _ => (st, "bad-op parse")
   | _ => (st, "bad-op parse")
+
+/-- the disabled build: stateless -/
+def offStep (line : String) : String :=
+  match words line with
+  | ["case", _] => "case"
+  | _ :: rest =>
+    match parseOp rest with
+    | some op => showObs 0 (execOff op)
+    | none => "bad-op parse"
+  | _ => "bad-op parse"
 
 end Fastrace.Driver
